@@ -679,10 +679,17 @@ def write_evidence(prop, tier, seed, runs, groups_ev, n_obl, n_dis, samples, bou
     assumptions = []
     for ru in runs:
         assumptions += ru['assumptions']
+    # a bounded stand-in is never counted as proved: for a proof-level property the obligations of BOUNDED groups are reported
+    # under their own keys and left out of obligations/discharged
+    b_obl = sum(g['obligations'] for g in groups_ev if g['loop_closure'].startswith('BOUNDED'))
+    b_dis = sum(g['discharged'] for g in groups_ev if g['loop_closure'].startswith('BOUNDED'))
+    if level == 'proof':
+        n_obl, n_dis = n_obl - b_obl, n_dis - b_dis
     ev = {
         'property_id': prop, 'tier': tier, 'seed': seed, 'level': level,
         'coverage': {
             'obligations': n_obl, 'discharged': n_dis,
+            'bounded_standin_obligations': b_obl, 'bounded_standin_discharged': b_dis,
             'checker_cmd': 'goto-cc (C++ front end on staged real code; C front end on contracts) | goto-instrument --dfcc <harness> --enforce-contract f [--replace-call-with-contract g] [--apply-loop-contracts] | cbmc --json-ui --trace (per group; exact command lines under groups[].cmds in replay files)',
             'trusted_base': sorted(set(tb)),
             'explanation': EXPLAIN.get(prop, ''),
